@@ -670,25 +670,27 @@ def check_decoded(c, res, what, ordered):
 
 
 def reg_oracle(c, obs):
-    """get(name) returns the class registered under name: last register after initialisation, else the built-in,
-    else (registered before initialisation and not a built-in name) the registered one; unknown -> KeyError"""
+    """get(name) returns the class registered under name: the last register() for it, else the built-in; unknown ->
+    KeyError.  A register() under a built-in name made BEFORE the registry was initialised is ambiguous in the property
+    text (the code lets the built-in win): either class is accepted here, the model pins the code's choice."""
     bad = []
     builtin = {"json": 0, "pickle": 1, "xml": 2, "yaml": 3, "bson": 4}
     outs, table = obs
-    tab, init = {}, False
+    tab, init = {}, False          # name -> set of acceptable class ids
     for op, out in zip(c["ops"], outs):
         if op[0] == "register":
-            tab[op[1]] = op[2]
-            exp = None
+            tab[op[1]] = {op[2]}
+            ok = out is None
         else:
             if not init:
-                tab.update(builtin)
+                for n, cid in builtin.items():
+                    tab[n] = tab.get(n, set()) | {cid}
                 init = True
-            exp = None if op[0] == "init" else tab.get(op[1], "key")
-        if out != exp:
-            bad.append("registry: %r returned %r, expected %r (history %r)" % (op, out, exp, c["ops"]))
+            ok = out is None if op[0] == "init" else (out in tab[op[1]] if op[1] in tab else out == "key")
+        if not ok:
+            bad.append("registry: %r returned %r, acceptable %r (history %r)" % (op, out, tab.get(op[1] if len(op) > 1 else None), c["ops"]))
             break
-    if not bad and dict(table) != tab:
+    if not bad and (set(n for n, _ in table) != set(tab) or any(cid not in tab[n] for n, cid in table)):
         bad.append("registry table %r differs from the registrations %r" % (table, tab))
     if not c.get("_same_dict", True):
         bad.append("registry dict was replaced")
